@@ -63,7 +63,7 @@ ASSUMPTIONS = [
     "reversed range pairs may be refused or must equal the ordered pair; result labels/units of the value dimension "
     "are not part of this property; content of clipped subregions after sel is C14's business (here: no refusal)",
     "padding reference = numpy.pad with the same mode on data and on the mask (statement: padding cells follow the "
-    "padding mode); only default keyword arguments of the modes are used; for mode 'constant' the validity of the "
+    "padding mode); the statistic modes are used with the numpy.pad option stat_length (1 or 2 cells next to the face), which must reach values and validity alike; for mode 'constant' the validity of the "
     "filled cells is not prescribed (a constant fill copies no source cell), only their value 0",
     "plane selection along the only axis of a 1-D mesh cannot return a field on a 0-D mesh: the returned value must "
     "be the one of the selected cell; the missing field/validity is reported under its own signatures",
@@ -104,7 +104,7 @@ M3_T = M3_S + [p for p in itertools.product([0, 1, 2, 4, 5, 8], repeat=3) if p n
 M4_Q = [(0, 1, 2, 4)]
 M4_T = M4_Q + [(1, 5, 4, 6), (8, 2, 1, 0), (3, 4, 4, 2), (2, 1, 0, 3), (4, 4, 4, 1), (1, 2, 8, 5)]
 
-MODES = ["constant", "edge", "wrap", "symmetric", "reflect"]
+MODES = ["constant", "edge", "wrap", "symmetric", "reflect", "maximum+stat_length=1", "minimum+stat_length=2"]
 LAYOUTS = ["none", "one", "touching", "disjoint", "overlap", "cover"]
 
 
@@ -1007,8 +1007,12 @@ def unit_pad(ctx):
 def _do_pad(ctx, geo, mesh, field, widths, pw, mode, dims):
     nd = len(widths)
     bf = C.field_snap(field)
-    ctx.step(1, f"Field.pad {pw} {mode}")
-    res = field.pad(pw, mode=mode)
+    # a mode may come with keyword options of numpy.pad ("maximum+stat_length=1"): they apply to the values AND to the
+    # validity of the padding cells (a cell that copies an edge value copies that edge cell's validity)
+    mode, _, opt = mode.partition("+")
+    kwargs = {opt.split("=")[0]: int(opt.split("=")[1])} if opt else {}
+    ctx.step(1, f"Field.pad {pw} {mode} {kwargs}")
+    res = field.pad(pw, mode=mode, **kwargs)
     ctx.step(1, "Mesh.pad")
     rmesh = mesh.pad(pw)
     _unchanged(ctx, "Field.pad", field, bf)
@@ -1031,8 +1035,8 @@ def _do_pad(ctx, geo, mesh, field, widths, pw, mode, dims):
                          f"lattice cells {m[0]}..{m[-1]} (source 0..{geo.n[ax] - 1})")
     # data and mask: interior = source at the same position, outside = numpy.pad of the mode
     seq = [tuple(w) for w in widths]
-    exp_a = np.pad(field.array, seq + [(0, 0)], mode=mode)
-    exp_v = np.pad(field.valid, seq, mode=mode)
+    exp_a = np.pad(field.array, seq + [(0, 0)], mode=mode, **kwargs)
+    exp_v = np.pad(field.valid, seq, mode=mode, **kwargs)
     inner = tuple(slice(w[0], w[0] + n) for w, n in zip(widths, geo.n))
     ctx.check(4)
     if res.array.shape != exp_a.shape:
